@@ -19,4 +19,4 @@ for p in "$@"; do
   out=$(cd /verif && ./check $p 2>&1 | grep -E "VIOLATION|^C[0-9]+ tier|KNOWN" | tr '\n' ' ')
   echo "$p => $out"
 done
-git checkout -- .; (cd /verif/harness && go build -tags verif -o bin/vcheck ./cmd/vcheck)
+git checkout -- .; (cd /verif/harness && bin/extract >/dev/null; go build -tags verif -o bin/vcheck ./cmd/vcheck; cd /verif/lean && lake build driver >/dev/null 2>&1)
